@@ -215,52 +215,96 @@ Proof.
   unfold limits_b, limits_ok. rewrite andb_true_iff, N.leb_le.
   destruct bm as [y|]; [destruct am as [x|]|]; rewrite ?N.leb_le; intuition discriminate.
 Qed.
+Lemma pagecm_b_iff a b : pagecm_b a b = true <-> PageCM a b.
+Proof. unfold pagecm_b, PageCM. apply N.eqb_eq. Qed.
+Lemma popt_eqb_iff a b : popt_eqb a b = true <-> a = b.
+Proof. apply optNeqb_eq. Qed.
 
-Lemma esub_b_iff a b : esub_b a b = true <-> ESub a b.
-Proof.
-  destruct a, b; cbn [esub_b]; try (split; [discriminate | now inversion 1]).
-  - rewrite cfeqb_eq. split; [intros ->; constructor | now inversion 1].
-  - rewrite !andb_true_iff, refeqb_eq, limits_b_iff, !booleqb_eq. split.
-    + intros [[[-> ?] ->] ->]. now constructor.
-    + inversion 1; subst. auto.
-  - rewrite !andb_true_iff, limits_b_iff, !booleqb_eq, optNeqb_eq. split.
-    + intros [[[-> ->] ?] ->]. now constructor.
-    + inversion 1; subst. auto.
-  - rewrite !andb_true_iff, cteqb_eq, !booleqb_eq. split.
-    + intros [[-> ->] ->]. constructor.
-    + inversion 1; subst. auto.
-  - rewrite cfeqb_eq. split; [intros ->; constructor | now inversion 1].
-Qed.
+Section Core.
+  Variable PG : option N -> option N -> Prop.
+  Variable pg_b : option N -> option N -> bool.
+  Hypothesis pg_b_iff : forall a b, pg_b a b = true <-> PG a b.
 
-Lemma msub_b_iff a b : msub_b a b = true <-> MSub a b.
-Proof.
-  unfold msub_b, MSub. rewrite andb_true_iff, !forallb_forall. split.
-  - intros [H1 H2]. split.
-    + intros k x Hin. specialize (H1 _ Hin). cbn [fst snd] in H1.
-      destruct (assoc2 k (m_imports b)) as [y|]; [|discriminate]. exists y. split; [reflexivity | now apply esub_b_iff].
-    + intros k y Hin. specialize (H2 _ Hin). cbn [fst snd] in H2.
-      destruct (assoc k (m_exports a)) as [x|]; [|discriminate]. exists x. split; [reflexivity | now apply esub_b_iff].
-  - intros [H1 H2]. split.
-    + intros [k x] Hin. destruct (H1 _ _ Hin) as [y [E Hy]]. cbn [fst snd]. rewrite E. now apply esub_b_iff.
-    + intros [k y] Hin. destruct (H2 _ _ Hin) as [x [E Hx]]. cbn [fst snd]. rewrite E. now apply esub_b_iff.
-Qed.
+  Lemma esub_b_iff a b : esub_b pg_b a b = true <-> ESub PG a b.
+  Proof.
+    destruct a, b; cbn [esub_b]; try (split; [discriminate | now inversion 1]).
+    - rewrite cfeqb_eq. split; [intros ->; constructor | now inversion 1].
+    - rewrite !andb_true_iff, refeqb_eq, limits_b_iff, !booleqb_eq. split.
+      + intros [[[-> ?] ->] ->]. now constructor.
+      + inversion 1; subst. auto.
+    - rewrite !andb_true_iff, limits_b_iff, !booleqb_eq, pg_b_iff. split.
+      + intros [[[-> ->] ?] ?]. now constructor.
+      + inversion 1; subst. auto.
+    - rewrite !andb_true_iff, cteqb_eq, !booleqb_eq. split.
+      + intros [[-> ->] ->]. constructor.
+      + inversion 1; subst. auto.
+    - rewrite cfeqb_eq. split; [intros ->; constructor | now inversion 1].
+  Qed.
 
-Lemma ESub_refl a : ESub a a.
-Proof. destruct a; constructor; unfold limits_ok; (split; [lia | destruct maximum; [lia | exact I]]). Qed.
-Lemma ESub_trans a b c : ESub a b -> ESub b c -> ESub a c.
-Proof.
-  intros H1 H2; inversion H1; subst; inversion H2; subst; constructor; unfold limits_ok in *;
-    repeat match goal with
-           | H : _ /\ _ |- _ => destruct H
-           | x : option N |- _ => destruct x
-           end; try (split; try lia; try exact I); try contradiction.
-Qed.
+  Lemma msub_b_iff a b : msub_b pg_b a b = true <-> MSub PG a b.
+  Proof.
+    unfold msub_b, MSub. rewrite andb_true_iff, !forallb_forall. split.
+    - intros [H1 H2]. split.
+      + intros k x Hin. specialize (H1 _ Hin). cbn [fst snd] in H1.
+        destruct (assoc2 k (m_imports b)) as [y|]; [|discriminate]. exists y. split; [reflexivity | now apply esub_b_iff].
+      + intros k y Hin. specialize (H2 _ Hin). cbn [fst snd] in H2.
+        destruct (assoc k (m_exports a)) as [x|]; [|discriminate]. exists x. split; [reflexivity | now apply esub_b_iff].
+    - intros [H1 H2]. split.
+      + intros [k x] Hin. destruct (H1 _ _ Hin) as [y [E Hy]]. cbn [fst snd]. rewrite E. now apply esub_b_iff.
+      + intros [k y] Hin. destruct (H2 _ _ Hin) as [x [E Hx]]. cbn [fst snd]. rewrite E. now apply esub_b_iff.
+  Qed.
+
+End Core.
+Section CoreRefl.
+  Variable PG : option N -> option N -> Prop.
+  Hypothesis PG_refl : forall a, PG a a.
+
+  Lemma ESub_refl a : ESub PG a a.
+  Proof. destruct a; constructor; auto; unfold limits_ok; (split; [lia | destruct maximum; [lia | exact I]]). Qed.
+  Lemma MSub_refl m : NoDup (keys (m_imports m)) -> NoDup (keys (m_exports m)) -> MSub PG m m.
+  Proof.
+    intros N1 N2. split.
+    - intros k x Hin. exists x. split; [now apply in_assoc2 | apply ESub_refl].
+    - intros k y Hin. exists y. split; [now apply in_assoc | apply ESub_refl].
+  Qed.
+End CoreRefl.
+Section CoreTrans.
+  Variable PG : option N -> option N -> Prop.
+  Hypothesis PG_trans : forall a b c, PG a b -> PG b c -> PG a c.
+
+  Lemma ESub_trans a b c : ESub PG a b -> ESub PG b c -> ESub PG a c.
+  Proof.
+    intros H1 H2; inversion H1; subst; inversion H2; subst; constructor; try (eapply PG_trans; eassumption); unfold limits_ok in *;
+      repeat match goal with
+             | H : _ /\ _ |- _ => destruct H
+             | x : option N |- _ => destruct x
+             end; try (split; try lia; try exact I); try contradiction.
+  Qed.
+
+  Lemma MSub_trans a b c : MSub PG a b -> MSub PG b c -> MSub PG a c.
+  Proof.
+    intros [I1 E1] [I2 E2]. split.
+    - intros k x Hin. destruct (I1 _ _ Hin) as [y [Ey Hy]]. apply assoc2_in in Ey.
+      destruct (I2 _ _ Ey) as [z [Ez Hz]]. exists z. split; [assumption | eapply ESub_trans; eassumption].
+    - intros k z Hin. destruct (E2 _ _ Hin) as [y [Ey Hy]]. apply assoc_in in Ey.
+      destruct (E1 _ _ Ey) as [x [Ex Hx]]. exists x. split; [assumption | eapply ESub_trans; eassumption].
+  Qed.
+End CoreTrans.
+
+(** changing the page-size relation *)
+Lemma ESub_change (PG PG' : option N -> option N -> Prop) (ok : coreextern -> Prop) a b :
+  (forall x y m64 sh i1 m1 i2 m2, ok (CEMemory m64 sh i1 m1 x) -> ok (CEMemory m64 sh i2 m2 y) -> PG x y -> PG' x y) ->
+  ok a -> ok b -> ESub PG a b -> ESub PG' a b.
+Proof. intros H Oa Ob HS. inversion HS; subst; constructor; auto. eapply H; eassumption. Qed.
 
 (** * Functions *)
 Section DecideItems.
   Variable RES : str -> str -> Prop.
   Variable res_b : str -> str -> bool.
   Hypothesis res_b_iff : forall n m, res_b n m = true <-> RES n m.
+  Variable PG : option N -> option N -> Prop.
+  Variable pg_b : option N -> option N -> bool.
+  Hypothesis pg_b_iff : forall a b, pg_b a b = true <-> PG a b.
 
   Lemma forall2_b_iff {A} (p : A -> A -> bool) (P : A -> A -> Prop) (Hp : forall x y, p x y = true <-> P x y) l :
     forall m, forall2_b p l m = true <-> Forall2 P l m.
@@ -305,10 +349,10 @@ Section DecideItems.
   Qed.
 
   Definition cov_spec (ea eb : list (str * tree)) : Prop :=
-    forall k b, In (k, b) eb -> exists a, assoc k ea = Some a /\ Sub RES a b.
+    forall k b, In (k, b) eb -> exists a, assoc k ea = Some a /\ Sub RES PG a b.
 
   Lemma sub_f_iff n : forall a b, (tdepth a <= n)%nat -> (tdepth b <= n)%nat ->
-    (sub_f res_b (S n) a b = true <-> Sub RES a b).
+    (sub_f res_b pg_b (S n) a b = true <-> Sub RES PG a b).
   Proof.
     induction n as [|n IH].
     - intros a b Ha Hb. destruct a; cbn [tdepth] in Ha; try lia.
@@ -316,7 +360,7 @@ Section DecideItems.
       assert (Hcov : forall ea eb, (list_max (map (fun kv => tdepth (snd kv)) ea) <= n)%nat ->
                                    (list_max (map (fun kv => tdepth (snd kv)) eb) <= n)%nat ->
                 forallb (fun kb => match assoc (fst kb) ea with
-                                   | Some x => sub_f res_b (S n) x (snd kb) | None => false end) eb = true
+                                   | Some x => sub_f res_b pg_b (S n) x (snd kb) | None => false end) eb = true
                 <-> cov_spec ea eb).
       { intros ea eb Hea Heb. unfold cov_spec. rewrite forallb_forall. split.
         - intros H k y Hin. specialize (H _ Hin). cbn [fst snd] in H.
@@ -332,25 +376,27 @@ Section DecideItems.
       + rewrite fsub_b_iff. split; [now constructor | now inversion 1].
       + rewrite Hcov by lia. split; [now constructor | now inversion 1].
       + rewrite andb_true_iff, !Hcov by lia. split; [intros []; now constructor | now inversion 1].
-      + rewrite msub_b_iff. split; [now constructor | now inversion 1].
+      + rewrite (msub_b_iff PG pg_b pg_b_iff). split; [now constructor | now inversion 1].
       + rewrite (vsub_b_iff RES res_b res_b_iff). split; [now constructor | now inversion 1].
       + rewrite res_b_iff. split; [now constructor | now inversion 1].
       + rewrite fsub_b_iff. split; [now constructor | now inversion 1].
       + rewrite (vsub_b_iff RES res_b res_b_iff). split; [now constructor | now inversion 1].
       + rewrite Hcov by lia. split; [now constructor | now inversion 1].
       + rewrite andb_true_iff, !Hcov by lia. split; [intros []; now constructor | now inversion 1].
-      + rewrite msub_b_iff. split; [now constructor | now inversion 1].
+      + rewrite (msub_b_iff PG pg_b pg_b_iff). split; [now constructor | now inversion 1].
   Qed.
 End DecideItems.
 
 (** The executable specification decides the declarative relation. *)
 Theorem sub_b_iff a b : sub_b a b = true <-> SubCM a b.
 Proof.
-  unfold sub_b, SubCM. apply sub_f_iff; [|lia|lia].
+  unfold sub_b, SubCM. apply sub_f_iff; [|apply pagecm_b_iff|lia|lia].
   intros n m. unfold nores_b, NoRes. split; [discriminate | tauto].
 Qed.
-Theorem sub_names_b_iff a b : sub_names_b a b = true <-> Sub eq a b.
-Proof. unfold sub_names_b. apply sub_f_iff; [apply seqb_eq | lia | lia]. Qed.
+(** [SubN]: the relation the checker decides (resources by name, page sizes as written). *)
+Notation SubN := (Sub eq eq).
+Theorem sub_names_b_iff a b : sub_names_b a b = true <-> SubN a b.
+Proof. unfold sub_names_b. apply sub_f_iff; [apply seqb_eq | apply popt_eqb_iff | lia | lia]. Qed.
 
 (** * Reflexivity, transitivity, independence of the resource parameter *)
 Lemma Forall2_fst_vsub_eq (l m : list (str * vtree)) :
@@ -386,21 +432,6 @@ Proof.
     match goal with E : Some _ = ft_result f |- _ => rewrite <- E in Hc end. exact Hc.
 Qed.
 
-Lemma MSub_refl m : NoDup (keys (m_imports m)) -> NoDup (keys (m_exports m)) -> MSub m m.
-Proof.
-  intros N1 N2. split.
-  - intros k x Hin. exists x. split; [now apply in_assoc2 | apply ESub_refl].
-  - intros k y Hin. exists y. split; [now apply in_assoc | apply ESub_refl].
-Qed.
-Lemma MSub_trans a b c : MSub a b -> MSub b c -> MSub a c.
-Proof.
-  intros [I1 E1] [I2 E2]. split.
-  - intros k x Hin. destruct (I1 _ _ Hin) as [y [Ey Hy]]. apply assoc2_in in Ey.
-    destruct (I2 _ _ Ey) as [z [Ez Hz]]. exists z. split; [assumption | eapply ESub_trans; eassumption].
-  - intros k z Hin. destruct (E2 _ _ Hin) as [y [Ey Hy]]. apply assoc_in in Ey.
-    destruct (E1 _ _ Ey) as [x [Ex Hx]]. exists x. split; [assumption | eapply ESub_trans; eassumption].
-Qed.
-
 Fixpoint wf_tree (t : tree) : Prop :=
   let all := fix go (l : list (str * tree)) : Prop :=
                match l with [] => True | (_, x) :: r => wf_tree x /\ go r end in
@@ -421,84 +452,164 @@ Lemma resfree_child (l : list (str * tree)) k x :
   forallb (fun kv => resfree (snd kv)) l = true -> In (k, x) l -> resfree x = true.
 Proof. intros H Hin. rewrite forallb_forall in H. apply (H _ Hin). Qed.
 
-Lemma Sub_refl n : forall a, (tdepth a <= n)%nat -> wf_tree a -> Sub eq a a.
+
+Section ReflTrans.
+  Variable PG : option N -> option N -> Prop.
+  Hypothesis PG_refl : forall a, PG a a.
+  Hypothesis PG_trans : forall a b c, PG a b -> PG b c -> PG a c.
+  Notation SubP := (Sub eq PG).
+
+  Lemma Sub_refl n : forall a, (tdepth a <= n)%nat -> wf_tree a -> SubP a a.
+  Proof.
+    induction n as [|n IH]; intros a Ha Hw; [destruct a; cbn [tdepth] in Ha; lia|].
+    assert (Hcov : forall e, (list_max (map (fun kv => tdepth (snd kv)) e) <= n)%nat -> NoDup (keys e) ->
+                             (fix go (l : list (str * tree)) : Prop := match l with [] => True | (_, x) :: r => wf_tree x /\ go r end) e ->
+                             forall k b, In (k, b) e -> exists a, assoc k e = Some a /\ SubP a b).
+    { intros e He Hn Hall k b Hin. exists b. split; [now apply in_assoc|].
+      apply IH; [eapply depth_child; eassumption | eapply wf_all_in; eassumption]. }
+    destruct a; cbn [tdepth] in Ha; cbn [wf_tree] in Hw; constructor;
+      try apply FSub_eq_iff; try apply VSub_eq_refl; try reflexivity;
+      try (apply (MSub_refl PG PG_refl); tauto); try (apply Hcov; [lia | tauto | tauto]).
+  Qed.
+
+  Lemma Sub_trans n : forall a b c, (tdepth b <= n)%nat -> SubP a b -> SubP b c -> SubP a c.
+  Proof.
+    induction n as [|n IH]; intros a b c Hb H1 H2; [destruct b; cbn [tdepth] in Hb; lia|].
+    assert (Hcov : forall ea eb ec, (list_max (map (fun kv => tdepth (snd kv)) eb) <= n)%nat ->
+              (forall k b, In (k, b) eb -> exists a, assoc k ea = Some a /\ SubP a b) ->
+              (forall k c, In (k, c) ec -> exists b, assoc k eb = Some b /\ SubP b c) ->
+              (forall k c, In (k, c) ec -> exists a, assoc k ea = Some a /\ SubP a c)).
+    { intros ea eb ec Heb Hab Hbc k z Hin. destruct (Hbc _ _ Hin) as [y [Ey Hy]]. apply assoc_in in Ey.
+      destruct (Hab _ _ Ey) as [x [Ex Hx]]. exists x. split; [assumption|].
+      eapply IH; [eapply depth_child; eassumption | eassumption | eassumption]. }
+    inversion H1; subst; inversion H2; subst; cbn [tdepth] in Hb; constructor;
+      try (match goal with
+           | A : FSub eq _ _, B : FSub eq _ _ |- _ => apply FSub_eq_iff in A; apply FSub_eq_iff in B; apply FSub_eq_iff; congruence
+           | A : VSub eq _ _, B : VSub eq _ _ |- _ => apply VSub_eq_inv in A; apply VSub_eq_inv in B; subst; apply VSub_eq_refl
+           | A : MSub _ _ _, B : MSub _ _ _ |- _ => eapply (MSub_trans PG PG_trans); eassumption
+           | A : ?n = ?m, B : ?m = ?k |- ?n = ?k => congruence
+           end); try reflexivity.
+    - eapply Hcov; [|eassumption|eassumption]. lia.
+    - eapply (Hcov ib0 ib ia); [|eassumption|eassumption]. lia.
+    - eapply Hcov; [|eassumption|eassumption]. lia.
+    - eapply Hcov; [|eassumption|eassumption]. lia.
+    - eapply (Hcov ib0 ib ia); [|eassumption|eassumption]. lia.
+    - eapply Hcov; [|eassumption|eassumption]. lia.
+  Qed.
+End ReflTrans.
+
+(** ** Changing the parameters.  [okm] is a condition on module types under which the page-size relation may be
+    changed (e.g. "canonical": the default page size is never spelled out); [tokm] lifts it to trees. *)
+Definition MSub_change (PG PG' : option N -> option N -> Prop) (ok : coreextern -> Prop) a b :
+  (forall x y m64 sh i1 m1 i2 m2, ok (CEMemory m64 sh i1 m1 x) -> ok (CEMemory m64 sh i2 m2 y) -> PG x y -> PG' x y) ->
+  (forall k x, In (k, x) (m_imports a) -> ok x) -> (forall k x, In (k, x) (m_exports a) -> ok x) ->
+  (forall k x, In (k, x) (m_imports b) -> ok x) -> (forall k x, In (k, x) (m_exports b) -> ok x) ->
+  MSub PG a b -> MSub PG' a b.
 Proof.
-  induction n as [|n IH]; intros a Ha Hw; [destruct a; cbn [tdepth] in Ha; lia|].
-  assert (Hcov : forall e, (list_max (map (fun kv => tdepth (snd kv)) e) <= n)%nat -> NoDup (keys e) ->
-                           (fix go (l : list (str * tree)) : Prop := match l with [] => True | (_, x) :: r => wf_tree x /\ go r end) e ->
-                           forall k b, In (k, b) e -> exists a, assoc k e = Some a /\ Sub eq a b).
-  { intros e He Hn Hall k b Hin. exists b. split; [now apply in_assoc|].
-    apply IH; [eapply depth_child; eassumption | eapply wf_all_in; eassumption]. }
-  destruct a; cbn [tdepth] in Ha; cbn [wf_tree] in Hw; constructor;
-    try apply FSub_eq_iff; try apply VSub_eq_refl; try reflexivity;
-    try (apply MSub_refl; tauto); try (apply Hcov; [lia | tauto | tauto]).
+  intros H Ai Ae Bi Be [I1 E1]. split.
+  - intros k x Hin. destruct (I1 _ _ Hin) as [y [Ey Hy]]. exists y. split; [assumption|].
+    eapply ESub_change; [exact H | eapply Bi; eapply assoc2_in; eassumption | eapply Ai; eassumption | assumption].
+  - intros k y Hin. destruct (E1 _ _ Hin) as [x [Ex Hx]]. exists x. split; [assumption|].
+    eapply ESub_change; [exact H | eapply Ae; eapply assoc_in; eassumption | eapply Be; eassumption | assumption].
 Qed.
 
-Lemma Sub_trans n : forall a b c, (tdepth b <= n)%nat -> Sub eq a b -> Sub eq b c -> Sub eq a c.
+Definition mod_ok (ok : coreextern -> Prop) (m : moduletype) : Prop :=
+  (forall k x, In (k, x) (m_imports m) -> ok x) /\ (forall k x, In (k, x) (m_exports m) -> ok x).
+Fixpoint tokm (ok : coreextern -> Prop) (t : tree) : Prop :=
+  let all := fix go (l : list (str * tree)) : Prop :=
+               match l with [] => True | (_, x) :: r => tokm ok x /\ go r end in
+  match t with
+  | XInst e | XTInst e => all e
+  | XComp i e | XTComp i e => all i /\ all e
+  | XMod m | XTMod m => mod_ok ok m
+  | _ => True
+  end.
+Lemma tokm_all_in ok (l : list (str * tree)) k x :
+  (fix go (l : list (str * tree)) : Prop := match l with [] => True | (_, x) :: r => tokm ok x /\ go r end) l ->
+  In (k, x) l -> tokm ok x.
 Proof.
-  induction n as [|n IH]; intros a b c Hb H1 H2; [destruct b; cbn [tdepth] in Hb; lia|].
-  assert (Hcov : forall ea eb ec, (list_max (map (fun kv => tdepth (snd kv)) eb) <= n)%nat ->
-            (forall k b, In (k, b) eb -> exists a, assoc k ea = Some a /\ Sub eq a b) ->
-            (forall k c, In (k, c) ec -> exists b, assoc k eb = Some b /\ Sub eq b c) ->
-            (forall k c, In (k, c) ec -> exists a, assoc k ea = Some a /\ Sub eq a c)).
-  { intros ea eb ec Heb Hab Hbc k z Hin. destruct (Hbc _ _ Hin) as [y [Ey Hy]]. apply assoc_in in Ey.
-    destruct (Hab _ _ Ey) as [x [Ex Hx]]. exists x. split; [assumption|].
-    eapply IH; [eapply depth_child; eassumption | eassumption | eassumption]. }
-  inversion H1; subst; inversion H2; subst; cbn [tdepth] in Hb; constructor;
-    try (match goal with
-         | A : FSub eq _ _, B : FSub eq _ _ |- _ => apply FSub_eq_iff in A; apply FSub_eq_iff in B; apply FSub_eq_iff; congruence
-         | A : VSub eq _ _, B : VSub eq _ _ |- _ => apply VSub_eq_inv in A; apply VSub_eq_inv in B; subst; apply VSub_eq_refl
-         | A : MSub _ _, B : MSub _ _ |- _ => eapply MSub_trans; eassumption
-         | A : ?n = ?m, B : ?m = ?k |- ?n = ?k => congruence
-         end); try reflexivity.
-  - eapply Hcov; [|eassumption|eassumption]. lia.
-  - eapply (Hcov ib0 ib ia); [|eassumption|eassumption]. lia.
-  - eapply Hcov; [|eassumption|eassumption]. lia.
-  - eapply Hcov; [|eassumption|eassumption]. lia.
-  - eapply (Hcov ib0 ib ia); [|eassumption|eassumption]. lia.
-  - eapply Hcov; [|eassumption|eassumption]. lia.
+  induction l as [|[k' y] l IH]; [intros _ []|]. intros [H1 H2] [E|Hin]; [injection E as -> ->; assumption | auto].
+Qed.
+Lemma tokm_all_intro ok (l : list (str * tree)) :
+  (forall k x, In (k, x) l -> tokm ok x) ->
+  (fix go (l : list (str * tree)) : Prop := match l with [] => True | (_, x) :: r => tokm ok x /\ go r end) l.
+Proof.
+  induction l as [|[k x] l IH]; intro H; [exact I|]. split; [apply (H k); now left | apply IH; intros k' x' Hin; apply (H k'); now right].
 Qed.
 
-Lemma Sub_change (R R' : str -> str -> Prop) n : forall a b, (tdepth a <= n)%nat -> (tdepth b <= n)%nat ->
-  ((resfree a = true /\ resfree b = true) \/ (forall n m, R n m -> R' n m)) -> Sub R a b -> Sub R' a b.
+Lemma Sub_change (R R' : str -> str -> Prop) (PG PG' : option N -> option N -> Prop) (ok : coreextern -> Prop) n :
+  (forall x y m64 sh i1 m1 i2 m2, ok (CEMemory m64 sh i1 m1 x) -> ok (CEMemory m64 sh i2 m2 y) -> PG x y -> PG' x y) ->
+  forall a b, (tdepth a <= n)%nat -> (tdepth b <= n)%nat -> tokm ok a -> tokm ok b ->
+  ((resfree a = true /\ resfree b = true) \/ (forall n m, R n m -> R' n m)) -> Sub R PG a b -> Sub R' PG' a b.
 Proof.
-  induction n as [|n IH]; intros a b Ha Hb Hc HS; [destruct a; cbn [tdepth] in Ha; lia|].
+  intros HPG. induction n as [|n IH]; intros a b Ha Hb Oa Ob Hc HS; [destruct a; cbn [tdepth] in Ha; lia|].
   assert (Hcov : forall ea eb, (list_max (map (fun kv => tdepth (snd kv)) ea) <= n)%nat ->
                                (list_max (map (fun kv => tdepth (snd kv)) eb) <= n)%nat ->
+            (fix go (l : list (str * tree)) : Prop := match l with [] => True | (_, x) :: r => tokm ok x /\ go r end) ea ->
+            (fix go (l : list (str * tree)) : Prop := match l with [] => True | (_, x) :: r => tokm ok x /\ go r end) eb ->
             ((forallb (fun kv => resfree (snd kv)) ea = true /\ forallb (fun kv => resfree (snd kv)) eb = true)
              \/ (forall n m, R n m -> R' n m)) ->
-            (forall k b, In (k, b) eb -> exists a, assoc k ea = Some a /\ Sub R a b) ->
-            (forall k b, In (k, b) eb -> exists a, assoc k ea = Some a /\ Sub R' a b)).
-  { intros ea eb Hea Heb Hc' H k y Hin. destruct (H _ _ Hin) as [x [Ex Hx]]. exists x. split; [assumption|].
+            (forall k b, In (k, b) eb -> exists a, assoc k ea = Some a /\ Sub R PG a b) ->
+            (forall k b, In (k, b) eb -> exists a, assoc k ea = Some a /\ Sub R' PG' a b)).
+  { intros ea eb Hea Heb Oea Oeb Hc' H k y Hin. destruct (H _ _ Hin) as [x [Ex Hx]]. exists x. split; [assumption|].
     pose proof (assoc_in _ _ _ Ex) as Hinx.
-    apply IH; [exact (depth_child ea k x n Hea Hinx) | exact (depth_child eb k y n Heb Hin) | | assumption].
+    apply IH; [exact (depth_child ea k x n Hea Hinx) | exact (depth_child eb k y n Heb Hin)
+               | exact (tokm_all_in ok ea k x Oea Hinx) | exact (tokm_all_in ok eb k y Oeb Hin) | | assumption].
     destruct Hc' as [[C1 C2]|C]; [left|now right].
     split; [exact (resfree_child ea k x C1 Hinx) | exact (resfree_child eb k y C2 Hin)]. }
-  inversion HS; subst; cbn [tdepth] in Ha, Hb; constructor;
+  inversion HS; subst; cbn [tdepth] in Ha, Hb; cbn [tokm] in Oa, Ob; constructor;
     try (eapply FSub_change; [|eassumption]; destruct Hc as [[C1 C2]|C]; [left; exact C1 | now right]);
     try (eapply VSub_change; [|eassumption]; destruct Hc as [[C1 C2]|C]; [left; exact C1 | now right]);
-    try assumption.
-  - apply (Hcov ea eb); [lia | lia | | assumption]. destruct Hc as [[C1 C2]|C]; [left; now split | now right].
-  - apply (Hcov ib ia); [lia | lia | | assumption].
+    try (eapply (MSub_change PG PG' ok); [exact HPG | apply Oa | apply Oa | apply Ob | apply Ob | assumption]).
+  - apply (Hcov ea eb); [lia | lia | assumption | assumption | | assumption]. destruct Hc as [[C1 C2]|C]; [left; now split | now right].
+  - apply (Hcov ib ia); [lia | lia | tauto | tauto | | assumption].
     destruct Hc as [[C1 C2]|C]; [left | now right]. cbn [resfree] in C1, C2.
     apply andb_true_iff in C1 as [? ?], C2 as [? ?]. now split.
-  - apply (Hcov ea eb); [lia | lia | | assumption].
+  - apply (Hcov ea eb); [lia | lia | tauto | tauto | | assumption].
     destruct Hc as [[C1 C2]|C]; [left | now right]. cbn [resfree] in C1, C2.
     apply andb_true_iff in C1 as [? ?], C2 as [? ?]. now split.
   - destruct Hc as [[C1 C2]|C]; [discriminate | auto].
-  - apply (Hcov ea eb); [lia | lia | | assumption]. destruct Hc as [[C1 C2]|C]; [left; now split | now right].
-  - apply (Hcov ib ia); [lia | lia | | assumption].
+  - apply (Hcov ea eb); [lia | lia | assumption | assumption | | assumption]. destruct Hc as [[C1 C2]|C]; [left; now split | now right].
+  - apply (Hcov ib ia); [lia | lia | tauto | tauto | | assumption].
     destruct Hc as [[C1 C2]|C]; [left | now right]. cbn [resfree] in C1, C2.
     apply andb_true_iff in C1 as [? ?], C2 as [? ?]. now split.
-  - apply (Hcov ea eb); [lia | lia | | assumption].
+  - apply (Hcov ea eb); [lia | lia | tauto | tauto | | assumption].
     destruct Hc as [[C1 C2]|C]; [left | now right]. cbn [resfree] in C1, C2.
     apply andb_true_iff in C1 as [? ?], C2 as [? ?]. now split.
 Qed.
 
-(** On resource-free trees the property's relation and the name-comparing relation coincide. *)
-Theorem SubCM_iff_names a b : resfree a = true -> resfree b = true -> (SubCM a b <-> Sub eq a b).
+Lemma tokm_true t : tokm (fun _ => True) t.
 Proof.
-  intros Ra Rb. unfold SubCM. split; intro H.
-  - eapply (Sub_change NoRes eq (Nat.max (tdepth a) (tdepth b))); [lia | lia | right; intros ? ? [] | exact H].
-  - eapply (Sub_change eq NoRes (Nat.max (tdepth a) (tdepth b))); [lia | lia | left; now split | exact H].
+  assert (H : forall n t, (tdepth t <= n)%nat -> tokm (fun _ => True) t).
+  { induction n as [|n IH]; intros t0 Ht; [destruct t0; cbn [tdepth] in Ht; lia|].
+    destruct t0; cbn [tdepth] in Ht; cbn [tokm]; try exact I; try (split; intros; exact I);
+      repeat split; apply tokm_all_intro; intros k x Hin; apply IH; eapply depth_child; try eassumption; lia. }
+  apply (H (tdepth t)). lia.
+Qed.
+
+(** Memory types that never spell out the default page size. *)
+Definition ce_canon (c : coreextern) : Prop :=
+  match c with CEMemory _ _ _ _ p => p <> Some 16 | _ => True end.
+Definition tcanon : tree -> Prop := tokm ce_canon.
+
+Lemma page_log2_canon a b : a <> Some 16 -> b <> Some 16 -> (page_log2 a = page_log2 b <-> a = b).
+Proof. destruct a, b; cbn [page_log2]; intros Ha Hb; split; intro H; try congruence. Qed.
+
+(** Soundness direction: whatever a name-comparing relation with a page relation finer than [PageCM] accepts on
+    resource-free trees is in the component-model relation. *)
+Theorem SubP_SubCM (PG : option N -> option N -> Prop) a b : (forall x y, PG x y -> PageCM x y) ->
+  resfree a = true -> resfree b = true -> Sub eq PG a b -> SubCM a b.
+Proof.
+  intros HP Ra Rb H. unfold SubCM.
+  eapply (Sub_change eq NoRes PG PageCM (fun _ => True) (Nat.max (tdepth a) (tdepth b)));
+    [ intros; now apply HP | lia | lia | apply tokm_true | apply tokm_true | left; now split | exact H ].
+Qed.
+(** Completeness direction: on trees whose memory types satisfy [ok], when [PageCM] implies [PG] on such memories. *)
+Theorem SubCM_SubP (PG : option N -> option N -> Prop) (ok : coreextern -> Prop) a b :
+  (forall x y m64 sh i1 m1 i2 m2, ok (CEMemory m64 sh i1 m1 x) -> ok (CEMemory m64 sh i2 m2 y) -> PageCM x y -> PG x y) ->
+  tokm ok a -> tokm ok b -> SubCM a b -> Sub eq PG a b.
+Proof.
+  intros HP Ca Cb H. unfold SubCM in H.
+  eapply (Sub_change NoRes eq PageCM PG ok (Nat.max (tdepth a) (tdepth b)));
+    [ exact HP | lia | lia | exact Ca | exact Cb | right; intros ? ? [] | exact H ].
 Qed.
